@@ -114,6 +114,12 @@ let rec show_val = function
 let show_assign a = String.concat " " (List.map (function None -> "n" | Some v -> show_val v) a)
 let parse_assign toks = List.map (fun t -> if t = "n" then None else Some (parse_val t)) toks
 let nth_cmd i = List.nth schemas i
+let rec show_string (s : Model.string) : Stdlib.String.t = match s with
+  | EmptyString -> ""
+  | String (Ascii (b0, b1, b2, b3, b4, b5, b6, b7), r) ->
+      let bit b k = if b then 1 lsl k else 0 in
+      Stdlib.String.make 1 (Char.chr (bit b0 0 + bit b1 1 + bit b2 2 + bit b3 3 + bit b4 4 + bit b5 5 + bit b6 6 + bit b7 7))
+      ^ show_string r
 
 let handle toks =
   match toks with
@@ -163,6 +169,12 @@ let handle toks =
   | ["cmddec"; idx; d] -> let c = nth_cmd (int_of_string idx) in
       (match from_body c (bytes_of_hex d) with
        | Accept a -> "A " ^ show_assign a | Partial a -> "P " ^ show_assign a | Reject -> "R")
+  (* the same decoders over the PINNED schemas (the protocol as pinned at the interoperating revision), by class name *)
+  | ["pcmddec"; name; d] ->
+      (match List.filter (fun c -> show_string c.c_name = name) pinned_schemas with
+       | c :: _ -> (match from_body c (bytes_of_hex d) with
+                    | Accept a -> "A " ^ show_assign a | Partial a -> "P " ^ show_assign a | Reject -> "R")
+       | [] -> "NOCLASS")
   | ["schemaok"; idx] -> let c = nth_cmd (int_of_string idx) in if schema_ok c.c_params then "1" else "0"
   | "txs" :: evs ->
       let nat s = nat_of_int (int_of_string s) in
